@@ -518,8 +518,11 @@ class HistoryGen:
         oc = ('accept', 'E%d' % self.neio)
         # what happens inside the window
         r = rng.random()
-        p_region = 0.04
-        if r < 0.60 or not wait and r < 0.78:
+        p_region = 0.02
+        if self.profile == 'c09':
+            # C09 speaks about events and acknowledgements on established connections
+            window = 'all' if wait or rng.random() < 0.5 else 'later'
+        elif r < 0.60 or not wait and r < 0.78:
             window = 'all' if wait or rng.random() < 0.5 else 'later'
         elif r < 0.60 + p_region:
             window = 'loss'
@@ -643,7 +646,7 @@ class HistoryGen:
         w = {'c08': (0.25, 0.40, 0.60, 0.72, 0.80), 'c09': (0.45, 0.85, 0.90, 0.94, 0.97)}[self.profile]
         if v.asked and rng.random() < 0.6:
             n = rng.choice(v.asked)
-            if rng.random() < 0.85:
+            if self.profile == 'c09' or rng.random() < (0.97 if n == '/' else 0.8):
                 return self.connect_packet(n, rng.random() < 0.9)
             return srv_frames(CONNECT_ERROR, rng.choice(['no', {'message': 'x'}, None]), n)
         if r < w[0]:
